@@ -108,7 +108,7 @@ def spec_check(op, args, got, spec, clean):
         return None
     if op in REPORT_OPS or op in (7, 8, 9, 10, 12):
         return None if eq(canon_reply(got), canon_reply(spec)) else "reply differs from the specification"
-    if op in (20, 21, 22, 23, 38, 45):
+    if op in (20, 21, 22, 23, 38, 45, 46):
         return None if eq(got, spec) else "answer differs from the specification"
     if op in (24, 25, 30):
         if not clean and not is_err(spec) and not is_err(got):
